@@ -97,7 +97,7 @@ static void check(const char *name, Constraints &cs) {
     Constraint *c = cs[i];
     double s = c->right->scale * c->right->finalPosition - c->gap - c->left->scale * c->left->finalPosition;
     if (!c->unsatisfiable && !(s >= -1e-6)) {
-      printf("%s: constraint %zu (var%d + %g <= var%d) returned unflagged with slack %g at final positions %g, %g\\n",
+      printf("%s: constraint %zu (var%d + %g <= var%d) returned unflagged with slack %g at final positions %g, %g\n",
              name, i, c->left->id, c->gap, c->right->id, s, c->left->finalPosition, c->right->finalPosition);
       bad++;
     }
@@ -120,14 +120,14 @@ template <class SOLVER> static void stale_active(const char *name, bool viaAdd) 
       s.satisfy();
     }
     check(name, cs);
-  } catch (...) { printf("%s: exception (abnormal return: property not engaged)\\n", name); }
+  } catch (...) { printf("%s: exception (abnormal return: property not engaged)\n", name); }
 }
 int main() {
   stale_active<IncSolver>("IncSolver::satisfy with a stale active flag", false);
   stale_active<IncSolver>("addConstraint of a previously active constraint, then solve", true);
   stale_active<Solver>("Solver::satisfy with a stale active flag", false);
-  if (bad) { printf("REPRODUCED: %d constraint(s) neither satisfied nor reported\\n", bad); return 1; }
-  printf("not reproduced by the replay scenarios\\n"); return 0;
+  if (bad) { printf("REPRODUCED: %d constraint(s) neither satisfied nor reported\n", bad); return 1; }
+  printf("not reproduced by the replay scenarios\n"); return 0;
 }
 '''
 
